@@ -34,7 +34,7 @@ from .world import (
 )
 
 WASH = [1, 2, 3, 4, "flush", "reuse"]
-LABELS = [None, None, "", "step", "mix it", "µL-transfer", "x" * 30, "last", "first"]
+LABELS = [None, None, "", "step", "mix it", "µL-transfer", "x" * 30, "last", "first", " padded ", "line\n"]
 LCS = ["", "Water", "Water_DispZmax-1_AspZmax-1", "DMSO free", "ä-class"]
 
 
@@ -139,7 +139,8 @@ def gen_worktable(rng, n=None, vclass="int", limits=None, need_trough=False, nam
         out.append(d1)
     # rack labels must be distinct; make some of them "interesting" (spaces, latin-1, 32 chars)
     if rng.random() < 0.3:
-        fancy = rng.choice(["MTP 96-well", "Tröge_µ", "R" * 32, "rack.1", "Systemliquid", "Systemliquid", "Waste"])  # incl. built-in EVOware identifiers
+        fancy = rng.choice(["MTP 96-well", "Tröge_µ", "R" * 32, "rack.1", "Systemliquid", "Systemliquid", "Waste",
+                             "Nährlösung für Vorkültür ÄÖÜ µ°", "µ" * 32, "é" * 17])  # incl. built-in EVOware identifiers; 32 characters are 32 bytes in the Latin-1 of the file
         if rng.random() < 0.2:
             # a name that differs from another labware's name by a blank at the end / the beginning only
             # (still distinct names), or a name with a blank at one end
